@@ -282,12 +282,18 @@ impl Encode for tor::OnionAddrV3 { open spec fn enc(&self) -> Seq<u8> { onion_by
     #[verifier::external_body] fn encode<W: io::Write + ?Sized>(&self, writer: &mut W) -> Result<usize, io::Error> { unimplemented!() } }
 impl Decode for tor::OnionAddrV3 { open spec fn wire(v: Self) -> Seq<u8> { onion_bytes(v) } open spec fn canonical_only() -> bool { true } open spec fn loose(v: Self, before: Seq<u8>, after: Seq<u8>) -> bool { true }
     #[verifier::external_body] fn decode<R: io::Read + ?Sized>(reader: &mut R) -> Result<Self, Error> { unimplemented!() } }
-/// String (u8 length + UTF-8 bytes; `str` byte reasoning is outside Verus): opaque leaf, ASSUMED codec contract
-pub uninterp spec fn string_bytes(s: String) -> Seq<u8>;
+/// String: u8 length + UTF-8 bytes. `str` byte reasoning is outside Verus: the UTF-8 encoding of a text is uninterpreted,
+/// the encoder is an ASSUMED leaf, the decoder is extracted below relative to the ASSUMED contract of String::from_utf8
+pub uninterp spec fn str_utf8(s: Seq<char>) -> Seq<u8>;
+pub open spec fn string_bytes(s: String) -> Seq<u8> { be_u8(str_utf8(s@).len() as u8) + str_utf8(s@) }
 impl Encode for String { open spec fn enc(&self) -> Seq<u8> { string_bytes(*self) }
     #[verifier::external_body] fn encode<W: io::Write + ?Sized>(&self, writer: &mut W) -> Result<usize, io::Error> { unimplemented!() } }
-impl Decode for String { open spec fn wire(v: Self) -> Seq<u8> { string_bytes(v) } open spec fn canonical_only() -> bool { true } open spec fn loose(v: Self, before: Seq<u8>, after: Seq<u8>) -> bool { true }
-    #[verifier::external_body] fn decode<R: io::Read + ?Sized>(reader: &mut R) -> Result<Self, Error> { unimplemented!() } }
+/// ASSUMED (alloc): String::from_utf8 accepts exactly the valid UTF-8 byte strings and is the inverse of the encoding
+#[verifier::external_body]
+pub fn vx_from_utf8(v: Vec<u8>) -> (r: Result<String, FromUtf8Error>) ensures r is Ok ==> str_utf8(r->Ok_0@) == v@ { unimplemented!() }
+/// ASSUMED (alloc): lossy conversion -- invalid sequences become U+FFFD, so nothing relates the text to the bytes
+pub assume_specification<'a>[String::from_utf8_lossy](v: &'a [u8]) -> std::borrow::Cow<'a, str>;
+pub assume_specification<'a, B: ?Sized + ToOwned>[std::borrow::Cow::<'a, B>::into_owned](c: std::borrow::Cow<'a, B>) -> <B as ToOwned>::Owned;
 /// cyphernet::addr::HostName is #[non_exhaustive]: `Other` stands for variants this crate does not know
 pub enum HostName { Ip(net::IpAddr), Dns(String), Tor(tor::OnionAddrV3), Other }
 pub struct NetAddr<H> { pub host: H, pub port: u16 }
@@ -587,6 +593,16 @@ pub mod fmt { pub struct Error; }
 //@      touch self.enc()
 //@      head
 //@        proof { lemma_flat_bytes(self.0.0@); }
+//@  impl Decode for String
+//@    add
+//@      open spec fn wire(v: Self) -> Seq<u8> { string_bytes(v) }
+//@      open spec fn canonical_only() -> bool { true } open spec fn loose(v: Self, before: Seq<u8>, after: Seq<u8>) -> bool { true }
+//@    fn decode
+//@      touch Self::wire(arbitrary())
+//@      desugar_try
+//@      body_sub? String::from_utf8\(bytes\) => vx_from_utf8(bytes)
+//@      head
+//@        proof { std_from_refl::<Error>(); }
 //@  impl Decode for PublicKey
 //@    add
 //@      open spec fn wire(v: Self) -> Seq<u8> { v.0@ }
